@@ -6,5 +6,6 @@ p = os.path.join(VERIF, "DESIGN.md")
 s = open(p).read()
 for name, script in (("SEEDED-TABLE", "seeded_table.py"), ("EVIDENCE-TABLE", "evidence_table.py")):
     out = subprocess.run([sys.executable, os.path.join(VERIF, "lib", script)], stdout=subprocess.PIPE, text=True).stdout
-    s = re.sub(r"<!-- %s-BEGIN -->.*?<!-- %s-END -->" % (name, name), "<!-- %s-BEGIN -->\n%s<!-- %s-END -->" % (name, out, name), s, flags=re.S)
+    a, b = s.index("<!-- %s-BEGIN -->" % name), s.index("<!-- %s-END -->" % name)
+    s = s[:a] + "<!-- %s-BEGIN -->\n%s" % (name, out) + s[b:]
 open(p, "w").write(s)
